@@ -842,6 +842,10 @@ def items(tier):
                 bcs = dict(zip(SIDES[:2 * dim], combo))
                 add("fc-radius", "%s-abs-r%s-%s" % (_tag(mesh), rad, _btag(bcs, dim)), mesh=mesh, radius=rad, bcs=bcs,
                     relative=False, elsize=["1/2", "2", "1"])
+                if t == 0:
+                    # the other anisotropy (unitx > unity > unitz): the per-axis half-widths must use their own element size
+                    add("fc-radius", "%s-abs2-r%s-%s" % (_tag(mesh), rad, _btag(bcs, dim)), mesh=mesh, radius=rad, bcs=bcs,
+                        relative=False, elsize=["2", "1", "1/2"])
         top = "3.6" if q else str(Fraction(max(mesh)) + Fraction("1.2"))
         if q and mesh not in ((3, 2, 0), (2, 2, 0), (1, 3, 0)):
             continue
